@@ -53,7 +53,7 @@ CHECKS = {
     },
     "C13": {
         "level": "fault_enumeration",
-        "text": "Crash sweep: for each sampled (world, command) the golden run's external effects (file writes, creates, unlinks, renames, mkdirs, database commits) are enumerated by a syscall-level tap, and EVERY boundary is decided by killing a real forked zorg process there (os._exit, no unwinding) and re-running the command; torn-empty and torn-prefix variants of file writes (all of them in thorough, two in half of the quick worlds), user edits between kill and rerun at a quarter of the crash points, and in thorough a second kill during the rerun. Oracle after the rerun: completes without error, index == recompiled files, every note has its ZID in the file, no ZID lost or duplicated, no user text lost, a further reindex is a no-op.",
+        "text": "Crash sweep: for each sampled (world, command) the golden run's external effects (file writes, creates, unlinks, renames, mkdirs, database commits) are enumerated by a syscall-level tap, and EVERY boundary is decided by killing a real forked zorg process there (os._exit, no unwinding) and re-running the command; torn-empty and torn-prefix variants of file writes (all of them in thorough, two in half of the quick worlds), as additional variants user edits between kill and rerun at a quarter of the crash points and 'the user undoes the edits made since the last indexing' (all pages or a seeded half) at every crash point of about half of the worlds (all explicit-path worlds), and in thorough a second kill during the rerun. Oracle after the rerun: completes without error, index == recompiled files, every note has its ZID in the file, no ZID lost or duplicated, no user text lost, a further reindex is a no-op, and (when nothing but the kill happened) the pages equal those of the uninterrupted run up to the suffix of freshly allocated ZIDs.",
         "ref": "DESIGN.md section 5 (C13)",
         "note": "Within a sampled world the crash points are enumerated completely; worlds and commands are sampled. SQLite's atomic commit is trusted.",
         "technique": TECH + "; exhaustive crash-point enumeration per sampled world with torn-write variants",
